@@ -373,8 +373,6 @@ def main(tier, seed, only=None):
             p0 = float(a.population[0])
             for pv in [p0, 93.75, 0.0] + ([p0 * 1e-3, 0.3, 1.0, 2.5, p0 * 7.3] if thorough else []):
                 one.append(dict(country=c, animal=a.animal_type, pop=pv))
-            if thorough:
-                one.append(dict(country=c, animal=a.animal_type, pop=p0, twice=True))
         # consecutive triples in the real priority order (covers ruminant / non-ruminant neighbours)
         step = 1 if thorough else 2
         for i in range(0, max(1, len(names) - 2), step):
